@@ -50,7 +50,7 @@ for d in sorted(glob.glob("/verif/seeded/C??-?")):
             agent = pa.get(x, {}) if isinstance(pa, dict) else next((q for q in pa if q.get("id", q.get("name")) == x), {})
         except Exception as e:
             agent = {"unreadable": str(e)}
-    elif os.path.exists(os.path.join(d, "meta.json")):
+    if not agent and os.path.exists(os.path.join(d, "meta.json")):
         agent = json.load(open(os.path.join(d, "meta.json"))).get("agent", {})
     conf = {}
     cp = os.path.join(CONF, sid + ".json")
